@@ -3,6 +3,8 @@ use std::panic::AssertUnwindSafe;
 
 use crate::ffi::{LlgCallback, LlgConstraintStep};
 use crate::panic_utils;
+#[cfg(llguidance_verif)]
+use crate::verif_seam::rayon_shim as rayon;
 
 /// A `*const c_void` wrapper that is `Send`.
 ///
